@@ -56,6 +56,20 @@ def make_rank_fn(case, g, serial_oracle):
         f, constants = phys.setup_f(comm, ckw, case['start'], allocateSaveMemory=True)
         out = {}
         out['init'] = phys.block(f)
+        if serial_oracle:
+            # the initial condition must not depend on the starting layout, and equals the model's formula
+            from refs import reference as ref
+            F0 = phys.assemble([out['init']], npts, 'init')
+            for other in ('flux_surface', 'v_parallel', 'poloidal'):
+                if other != case['start']:
+                    g2, _ = phys.setup_f(comm, ckw, other)
+                    Fo = phys.assemble([phys.block(g2)], npts, 'init ' + other)
+                    if not (phys.relerr(Fo, F0) <= 1e-15):
+                        raise OracleFail('init-layout-dependent', dict(layouts=[case['start'], other],
+                                                                       relerr=phys.relerr(Fo, F0)))
+            want = ref.init_ref([np.asarray(e) for e in f.eta_grid], ref.constants_dict(constants))
+            if not (phys.relerr(F0, want) <= 1e-12):
+                raise OracleFail('init-differs', dict(layout=case['start'], relerr=phys.relerr(F0, want)))
         lay = f.getLayout(f.currentLayout)
         pert = phys.smooth_noise(npts, case['fseed'], amp=0.2)
         f.getAllData()[:] *= (1.0 + cm.local(pert, lay))
